@@ -291,6 +291,35 @@ def keys_id(k):
     return ("hk", k.n) if type(k) is keys.HK else k
 
 
+def query_sweep(c, model, dom, impl, kind, sig, what):
+    """'later operations behave normally': every bounded query over the
+    whole key universe against the model (a failed operation may leave a
+    stale separator, an over-full or a sparse leaf behind; searches must not
+    care)"""
+    mapping = is_mapping(kind)
+    meth = "items" if mapping else "keys"
+    qs = []
+    for i in range(dom.nkeys):
+        qs.append(["minKey", i])
+        qs.append(["maxKey", i])
+        qs.append(["in", i])
+    step = max(1, dom.nkeys // 6)
+    for i in range(0, dom.nkeys, step):
+        for fl in ((0, 0), (1, 0), (0, 1), (1, 1)):
+            qs.append(["range", meth, i, "omit", fl[0], fl[1], "kw"])
+            qs.append(["range", meth, "omit", i, fl[0], fl[1], "kw"])
+            qs.append(["range", meth, i, min(dom.nkeys - 1, i + step + 1),
+                       fl[0], fl[1], "kw"])
+    for q in qs:
+        want = model.apply(q)
+        have = ops.apply(c, q, dom, impl, kind)
+        if not ops.same_outcome(have, want):
+            raise Violation(
+                dict(sig, oracle="query-after", fop=q[0]),
+                "%s; afterwards %r -> %r, model %r (contents %r)" % (
+                    what, q, have, want, model.listing()[:40]))
+
+
 def _one(plan, dom, cfg, ctx, n, ncmp, L0, L1, baseline, tracked, h, base):
     impl, kind = cfg["impl"], cfg["kind"]
     mapping = is_mapping(kind)
@@ -370,6 +399,8 @@ def _one(plan, dom, cfg, ctx, n, ncmp, L0, L1, baseline, tracked, h, base):
     for e in got:
         k = e[0] if mapping else e
         model.d[kidx[k]] = vidx[e[1]] if mapping else True
+    query_sweep(c, model, dom, impl, kind, sig,
+                "%r, comparison %d/%d raised" % (op, n, ncmp))
     for f in plan["follow"]:
         want = model.apply(f)
         have = ops.apply(c, f, dom, impl, kind)
